@@ -12,10 +12,9 @@
  *
  * What the writer model represents:  writeStartElement / writeEmptyElement / writeTextElement / writeDefaultNamespace /
  * writeAttribute / writeCharacters / writeEndElement with Qt's semantics, including: a child element without its own
- * xmlns declaration inherits the default namespace of its parent; attributes and the namespace written after
- * writeEmptyElement belong to that empty element; writeCharacters("") writes nothing.
+ * xmlns declaration inherits the default namespace of its parent; writeCharacters("") writes nothing.
  * What it does not represent is a MODEL_LIMIT (exit 2, never a verdict): more than XN elements, XA attributes, XC
- * children or XD open elements; mixed content (text next to child elements, or two text chunks in one element); text() of
+ * children or XD open elements; attributes / xmlns added after writeEmptyElement (Qt adds them to that element); mixed content (text next to child elements, or two text chunks in one element); text() of
  * an element that has child elements; prefixed namespaces.
  * What is an OBLIGATION on the calling code (QXmpp's share of "the output is well-formed XML"), recorded in gh_x.wf and
  * asserted by the units' postconditions: element and attribute names are non-empty, no attribute is written twice on one
@@ -42,7 +41,7 @@ typedef struct xtree {
   int parent[XN + 1];
   /* elements being written */
   xopen s[XD]; int depth;
-  bool has_pending; xopen p; int p_parent;      /* element created by writeEmptyElement that still accepts attributes */
+  bool has_pending;  /* the last thing written was writeEmptyElement (Qt would still add attributes to that element) */
   bool tag_open;     /* the start tag of the innermost open element still accepts attributes / namespace declarations */
   int used;          /* number of elements created so far (ids 1..used) */
   int base;          /* stack depth at which the serialiser under test started */
@@ -67,7 +66,10 @@ static inline void xw_commit(const xopen *o, int parent) {
   gh_x.c4[id] = o->child[4]; gh_x.c5[id] = o->child[5]; gh_x.c6[id] = o->child[6]; gh_x.c7[id] = o->child[7];
   gh_x.parent[id] = parent;
 }
-static inline void xw_flush(void) { if (gh_x.has_pending) { xw_commit(&gh_x.p, gh_x.p_parent); gh_x.has_pending = false; } }
+static inline void xw_flush(void) { gh_x.has_pending = false; }
+/* id reservation (ghost): the units pad both arms of a conditional to the same number of created elements, so that element
+   ids are the same constants on all paths (pure identities: skipping ids does not change the tree) */
+static inline void xw_pad(int n) { MODEL_LIMIT(gh_x.used <= XN - n, "abstract XML: more elements than the ghost tree holds"); gh_x.used += n; }
 /* a new element named `name` under the innermost open element: fills *o, links it to its parent */
 static inline void xw_new(xopen *o, qstr name) {
   MODEL_LIMIT(gh_x.used < XN, "abstract XML: more elements than the ghost tree holds");
@@ -92,22 +94,28 @@ static inline void xw_writeStartElement(xw *w, qstr name) { (void)w;
   if (gh_x.depth < XD) { xw_new(&gh_x.s[gh_x.depth], name); gh_x.depth++; }
   gh_x.tag_open = true; }
 static inline void xw_writeEmptyElement(xw *w, qstr name) { (void)w;
-  xw_flush();
-  xw_new(&gh_x.p, name); gh_x.p_parent = gh_x.depth > 0 ? gh_x.s[gh_x.depth - 1].id : 0; gh_x.has_pending = true; gh_x.tag_open = false; }
+  xopen o;
+  xw_new(&o, name); xw_commit(&o, gh_x.depth > 0 ? gh_x.s[gh_x.depth - 1].id : 0); gh_x.has_pending = true; gh_x.tag_open = false; }
 static inline void xw_writeEndElement(xw *w) { (void)w;
   xw_flush();
   if (gh_x.depth <= gh_x.base) { gh_x.wf = false; return; }                 /* end without start */
   gh_x.depth--;
   xw_commit(&gh_x.s[gh_x.depth], gh_x.depth > 0 ? gh_x.s[gh_x.depth - 1].id : 0);
   gh_x.tag_open = false; }
-static inline xopen *xw_attr_target(void) { if (gh_x.has_pending) return &gh_x.p; if (gh_x.depth > gh_x.base && gh_x.tag_open) return &gh_x.s[gh_x.depth - 1]; return (xopen *)0; }
-static inline void xw_writeDefaultNamespace(xw *w, qstr ns) { (void)w; xopen *t = xw_attr_target(); if (!t) { gh_x.wf = false; return; } t->ns = ns; }
-static inline void xw_writeAttribute(xw *w, qstr k, qstr v) { (void)w;
-  xopen *t = xw_attr_target();
-  if (!t || k == 0) { gh_x.wf = false; return; }
+/* attributes and namespace declarations go to the innermost element while its start tag is open */
+static inline void xw_attr_into(xopen *t, qstr k, qstr v) {
+  if (k == 0) { gh_x.wf = false; return; }
   if ((t->nattr > 0 && t->ak[0] == k) || (t->nattr > 1 && t->ak[1] == k) || (t->nattr > 2 && t->ak[2] == k) || (t->nattr > 3 && t->ak[3] == k)) { gh_x.wf = false; return; }
   MODEL_LIMIT(t->nattr < XA, "abstract XML: more attributes than the ghost tree holds");
   if (t->nattr < XA) { t->ak[t->nattr] = k; t->av[t->nattr] = v; t->nattr++; } }
+static inline void xw_writeDefaultNamespace(xw *w, qstr ns) { (void)w;
+  MODEL_LIMIT(!gh_x.has_pending, "abstract XML: namespace declaration added to an element created by writeEmptyElement");
+  if (gh_x.depth > gh_x.base && gh_x.tag_open) gh_x.s[gh_x.depth - 1].ns = ns;
+  else gh_x.wf = false; }
+static inline void xw_writeAttribute(xw *w, qstr k, qstr v) { (void)w;
+  MODEL_LIMIT(!gh_x.has_pending, "abstract XML: attribute added to an element created by writeEmptyElement");
+  if (gh_x.depth > gh_x.base && gh_x.tag_open) xw_attr_into(&gh_x.s[gh_x.depth - 1], k, v);
+  else gh_x.wf = false; }
 static inline void xw_writeCharacters(xw *w, qstr t) { (void)w;
   xw_flush(); gh_x.tag_open = false;
   if (t == 0) return;
